@@ -256,7 +256,11 @@ class Session:
             kw["storage"] = type("AppCSVStorage", (CSVStorage,), {})
         elif form == 1:
             path = os.path.relpath(self.path)  # relative to the working directory (which no check changes)
-        return TinyFlux(path, auto_index=cfg["auto_index"], **kw)
+        cls = TinyFlux
+        if form == 2:
+            # the database class an application derives to add its own helpers; nothing is overridden
+            cls = type("AppTinyFlux", (TinyFlux,), {"app_helper": lambda self_: len(self_)})
+        return cls(path, auto_index=cfg["auto_index"], **kw)
 
     def close(self):
         try:
